@@ -79,7 +79,7 @@ def copy_repo(dst):
     run(["rsync", "-a", "--delete", "--exclude", ".git", REPO + "/", dst + "/"], check=True)
 
 
-def build_garble(inject=("main",), tags="verif", name="garble"):
+def build_garble(inject=("main", "literals"), tags="verif", name="garble"):
     """Copy /repo's working tree to scratch, drop the add-only oracle files in, build.
     Returns (binary_path, source_copy_dir).  Raises BuildError with the compiler output."""
     src = sub("src-" + name)
@@ -93,7 +93,8 @@ def build_garble(inject=("main",), tags="verif", name="garble"):
                 os.makedirs(os.path.join(src, rel), exist_ok=True)
                 shutil.copy(os.path.join(root, f), os.path.join(src, rel, f))
     out = os.path.join(sub("bin"), name)
-    cmd = ["go", "build", "-o", out]
+    # -trimpath: the binary (and hence its content ID, which keys every cache) must not depend on the scratch path
+    cmd = ["go", "build", "-trimpath", "-o", out]
     if tags:
         cmd += ["-tags", tags]
     cmd += ["."]
@@ -457,7 +458,8 @@ def run_translators():
     except BuildError as e:
         return False, "translator does not build: %s" % e
     gen_tmp = sub("gen-out")
-    r = run([out, REPO, gen_tmp], env=base_env())
+    os.makedirs(CACHE, exist_ok=True)
+    r = run([out, REPO, gen_tmp], env=base_env({"VERIF_GOFLAGS_CACHE": os.path.join(CACHE, "goflags.json")}))
     if r.returncode != 0:
         return False, r.stderr.decode(errors="replace")
     # only touch files whose content changed (keeps make incremental)
